@@ -87,7 +87,8 @@ func longestWhitespacePrefix(bb [][]byte) []byte {
 	}
 
 	for i := 1; i < len(bb); i++ {
-		if len(bb[i]) != 0 {
+		// A whitespace-only line is blank: it does not limit the common indentation.
+		if len(bytes.TrimLeft(bb[i], "\t ")) != 0 {
 			for !bytes.HasPrefix(bb[i], prefix) {
 				prefix = prefix[:len(prefix)-1]
 				if len(prefix) == 0 {
